@@ -264,6 +264,9 @@ cdef class ZOrderNNPS(NNPS):
         cdef int c_x, c_y, c_z
 
         cdef int i, n
+        if curr_num_particles == 0:
+            return curr_cid
+
         for i in range(curr_num_particles):
             find_cell_id_raw(
                     x_ptr[i] - xmin[0],
@@ -385,41 +388,36 @@ cdef class ZOrderNNPS(NNPS):
         return pids.get_npy_array()
 
     cdef void _fill_nbr_boxes(self):
-        cdef int i, j, k
-        cdef NNPSParticleArrayWrapper pa_wrapper
-        cdef int num_particles
+        cdef int i, j, k, a
+        cdef NNPSParticleArrayWrapper pa_wrapper, other
+        cdef int num_particles, other_num_particles
 
         cdef int* current_nbr_boxes
+        cdef int* current_lengths
         cdef uint32_t* current_cids
         cdef uint32_t* current_pids
         cdef uint64_t* current_keys
         cdef int* current_key_to_idx
-        cdef int found_idx
+
+        cdef uint32_t* other_cids
+        cdef uint32_t* other_pids
+        cdef uint64_t* other_keys
 
         cdef double* x_ptr
         cdef double* y_ptr
         cdef double* z_ptr
-        cdef double* h_ptr
+        cdef double* xmin = self.xmin.data
 
         cdef int c_x, c_y, c_z
         cdef int num_boxes
 
-        cdef int n = 0
         cdef uint32_t cid, pid
 
         cdef int found_indices[27]
 
-        cdef uint64_t key
-
         for i in range(self.narrays):
-            n = 0
             pa_wrapper = self.pa_wrappers[i]
             num_particles = pa_wrapper.get_number_of_particles()
-            x_ptr = pa_wrapper.x.data
-            y_ptr = pa_wrapper.y.data
-            z_ptr = pa_wrapper.z.data
-            h_ptr = pa_wrapper.h.data
-            xmin = self.xmin.data
 
             current_keys = self.keys[i]
             current_key_to_idx = self.key_to_idx[i]
@@ -435,33 +433,36 @@ cdef class ZOrderNNPS(NNPS):
             for j in range(self.max_cid):
                 current_lengths[j] = 1
 
-            pid = current_pids[0]
-            cid = current_cids[pid]
-
-            find_cell_id_raw(
-                x_ptr[pid] - xmin[0],
-                y_ptr[pid] - xmin[1],
-                z_ptr[pid] - xmin[2],
-                self.h_sub,
-                &c_x, &c_y, &c_z
-                )
-
-            num_boxes = self._neighbor_boxes(c_x, c_y, c_z, current_key_to_idx,
-                    num_particles, found_indices)
-
-            for k in range(num_boxes):
-                found_idx = found_indices[k]
-                current_nbr_boxes[self.mask_len*cid + n] = found_idx
-                n += 1
-
-            # nbrs of all cids in particle array i
+            # number of particles of array i in each of its cells
             for j in range(1, num_particles):
-                key = current_keys[j]
-                pid = current_pids[j]
-                cid = current_cids[pid]
-                n = 0
+                if current_keys[j] == current_keys[j-1]:
+                    cid = current_cids[current_pids[j]]
+                    current_lengths[cid] += 1
 
-                if key != current_keys[j-1]:
+            # nbrs in particle array i of every occupied cell: a query
+            # particle of another array may lie in a cell which is empty
+            # in array i
+            for a in range(self.narrays):
+                other = self.pa_wrappers[a]
+                other_num_particles = other.get_number_of_particles()
+                x_ptr = other.x.data
+                y_ptr = other.y.data
+                z_ptr = other.z.data
+
+                other_keys = self.keys[a]
+                other_cids = self.cids[a]
+                other_pids = self.pids[a]
+
+                for j in range(other_num_particles):
+                    if j > 0 and other_keys[j] == other_keys[j-1]:
+                        continue
+
+                    pid = other_pids[j]
+                    cid = other_cids[pid]
+
+                    if current_nbr_boxes[self.mask_len*cid] != -1:
+                        continue
+
                     find_cell_id_raw(
                         x_ptr[pid] - xmin[0],
                         y_ptr[pid] - xmin[1],
@@ -470,15 +471,12 @@ cdef class ZOrderNNPS(NNPS):
                         &c_x, &c_y, &c_z
                         )
 
-                    num_boxes = self._neighbor_boxes(c_x, c_y, c_z, current_key_to_idx,
-                            num_particles, found_indices)
+                    num_boxes = self._neighbor_boxes(c_x, c_y, c_z,
+                            current_key_to_idx, num_particles, found_indices)
 
                     for k in range(num_boxes):
-                        found_idx = found_indices[k]
-                        current_nbr_boxes[self.mask_len*cid + n] = found_idx
-                        n += 1
-                else:
-                    current_lengths[cid] += 1
+                        current_nbr_boxes[self.mask_len*cid + k] = \
+                            found_indices[k]
 
     cdef inline int get_idx(self, uint64_t key, int* key_to_idx) noexcept nogil:
         return -1 if key >= self.max_key else key_to_idx[key]
@@ -766,6 +764,9 @@ cdef class ExtendedZOrderNNPS(ZOrderNNPS):
             for j in range(self.max_cid):
                 current_lengths[j] = 1
                 current_hmax[j] = 0
+
+            if num_particles == 0:
+                continue
 
             pid = current_pids[0]
             cid = current_cids[pid]
